@@ -47,6 +47,12 @@ CLAIMED = {
     'C12': dict(design='4 (C12)',
         text='Theorems: in every reachable state the transmitter is idle iff no request is active (C12_idle_iff); protocol aborts, stop_sending and reset complete the active request (and for reset every queued one) with failure exactly there (C12_abort, C12_reset); an empty payload completes with success when dequeued (C12_empty); the only events a transmit pass can emit are frames, documented errors and completions (C12_tx_events). Tied to /repo by request-profile campaigns observing each request completion (exactly once, value, instant) line by line against the model, plus real-thread blocking_send scenarios.',
         note='The blocking wait (threading.Event, worker thread) is exercised by threaded scenarios, not modelled; exactly-once over a whole history is an oracle of the campaign, the theorems give the per-step facts.'),
+    'C13': dict(design='4 (C13)',
+        text='Theorems: for EVERY schedule of the user threads send() calls the transmit queue holds each thread payloads in that thread order, none twice, none invented (C13_per_thread, C13_complete, C13_queue_grows: induction over the schedule); send() appends and the worker starts the head: FIFO (C13_send_appends, C13_dequeue_head); frames not addressed to the layer are no-ops of the reception loop (C13_noise_ignored). Delivery of the queue content, in order, each once, is C01/C02. Tied to /repo by real-thread campaigns on 4 transports (rxfn(timeout), legacy rxfn(), CanStack, NotifierBasedCanStack on a python-can virtual bus) with perturbed scheduling: the observed order of tx_queue.put is the schedule, the extracted Coq merge for that schedule must equal what the peer delivered; plus threaded full-duplex streaming and a logic-level correspondence campaign for the worker loop body.',
+        note='PARTIAL by nature: thread schedules, GIL, OS scheduling and callback latency are sampled, not proved; assumed: queue.Queue is a linearizable FIFO and protocol state is touched only by the worker thread.'),
+    'C14': dict(design='4 (C14)',
+        text='Theorems on the lifecycle model (Model/Threaded.v, which embeds the full layer model): RuntimeError is raised exactly by a second start() and by process()/reset() while started, nothing else raises (C14_exceptions); worker and relay thread exist exactly while started, for every operation sequence (C14_threads); stop() in ANY state - never started, idle, mid-transfer - succeeds, leaves no thread, not started, both state machines idle, all queues empty, every queued/active request completed with failure (C14_stop_clean, C14_stop_never_started); a stopped layer restarts into the protocol state of a fresh one (C14_restart). Tied to /repo by real-thread campaigns: all operation sequences up to length 3 (+ random up to 12) on TransportLayer and NotifierBasedCanStack compared call by call with the extracted model; stop() mid-transfer, stop() under incoming traffic, stop() with a slow blocking reader; restart + transfer.',
+        note='PARTIAL: "returns within bounded time" and "no thread alive" are measured on the Python runtime on every run (threading.enumerate(), stop() duration), not proved; the model proves the bookkeeping.'),
     'C15': dict(design='4 (C15)',
         text='Theorems: a disabled limiter never limits (C15_off); when enabled, allowance >= 0 and bits in the live window + 8*allowance <= bitrate*window (C15_allowance, exact rationals); every emitted frame adds exactly its data bits to the window (C15_accounting). Tied to /repo by sliding-window campaigns with an independent bound oracle and line-by-line model comparison on float-exact (bitrate, window) pairs.',
         note='The sliding-window bound over a whole run and "never stalls" are campaign oracles; the model uses exact rationals, campaigns are restricted to parameter pairs where the float computation is exact.'),
@@ -67,8 +73,6 @@ CLAIMED = {
         note='Same kernel abstraction as C19.'),
 }
 REASONS = {
-    'C13': 'threaded model and campaign under construction',
-    'C14': 'lifecycle model and campaign under construction',
 }
 
 checks = []
